@@ -303,6 +303,22 @@ def _join_c(a, b):
   return u if len(u) <= 12 else NOCONST
 
 
+def _join_fn(a, b):
+  """one of finitely many known callables (a dispatch table of functions)"""
+  if a is None or b is None:
+    return None
+  alts = []
+  for f in (a, b):
+    for g in (f[1] if f[0] == 'multi' else (f,)):
+      if g[0] not in ('repo', 'closure', 'lambda', 'ext', 'class'):
+        return None
+      if not any(g is h or (g[0] == h[0] and g[1] is h[1]) for h in alts):
+        alts.append(g)
+  if len(alts) == 1:
+    return alts[0]
+  return ('multi', tuple(alts)) if len(alts) <= 6 else None
+
+
 def _join_ty(a, b):
   if a == b:
     return a
@@ -324,6 +340,15 @@ class Engine:
     self.trace = []
 
   # ------------------------------------------------------------------ join
+  def _elem_consts(self, ev, itv):
+    """the element of a literal tuple / list of constants is one of them"""
+    if isinstance(ev, V) and ev.c is NOCONST and itv.elts and \
+            all(x.c is not NOCONST for x in itv.elts):
+      u = frozenset().union(*[x.c for x in itv.elts])
+      if 0 < len(u) <= 12:
+        return ev.with_(c=u)
+    return ev
+
   def join_v(self, a, b):
     if a is b:
       return a
@@ -341,7 +366,7 @@ class Engine:
       kv = {k: self.join_v(a.kv[k], b.kv[k]) for k in a.kv}
     obj = a.obj if (a.obj is not None and b.obj is not None and
                     a.obj.oid == b.obj.oid) else None
-    fn = a.fn if a.fn == b.fn else None
+    fn = a.fn if a.fn == b.fn else _join_fn(a.fn, b.fn)
     jc = _join_c(a.c, b.c)
     # x != k survives a join when each side either knows it or has a constant
     # set that excludes k
@@ -766,7 +791,7 @@ class Engine:
       s = head.copy()
       s.aux = self.dom.aux_copy(s.aux)
       if is_for:
-        ev = self.dom.iter_elem(itv, stmt, s)
+        ev = self._elem_consts(self.dom.iter_elem(itv, stmt, s), itv)
         self.assign(stmt.target, ev, s, func, stmt)
         entered = [s]
         exit_now = [head.copy()] if (may_skip or not first) else []
@@ -1047,6 +1072,18 @@ class Engine:
       cv = self._constv(m.consts[name], node)
       return cv
     if name in m.const_exprs:
+      ex = m.const_exprs[name]
+      if isinstance(ex, (ast.Dict, ast.Tuple, ast.List, ast.Lambda)) and \
+              name not in getattr(self, '_modconst_busy', ()):
+        # a module-level table (e.g. a dispatch dict of functions): evaluate
+        # the literal in module scope
+        self._modconst_busy = getattr(self, '_modconst_busy', ()) + (name,)
+        try:
+          fake = FuncInfo(m, '<module>', ast.parse('def f(): pass').body[0])
+          fake.cls = None
+          return self.eval(ex, State({}, st.aux), fake)
+        finally:
+          self._modconst_busy = self._modconst_busy[:-1]
       return V(self.dom.global_read(m, name, node))
     import builtins
     if hasattr(builtins, name):
@@ -1169,6 +1206,12 @@ class Engine:
       k = idx[0][1].const()
       if base.kv is not None and isinstance(k, str) and k in base.kv:
         return base.kv[k]
+      if base.kv and k is NOCONST and base.ty == 'dict':
+        # entry of a literal dict at an unknown key: any of its values
+        r = None
+        for x in base.kv.values():
+          r = self.join_v(r, x)
+        return r
       if base.elts is not None and isinstance(k, int) and \
               not isinstance(k, bool) and -len(base.elts) <= k < len(base.elts):
         return base.elts[k]
@@ -1423,7 +1466,7 @@ class Engine:
     for g in e.generators:
       itv = self.eval(g.iter, work, func)
       iters.append(itv)
-      ev = self.dom.iter_elem(itv, g, work)
+      ev = self._elem_consts(self.dom.iter_elem(itv, g, work), itv)
       self.assign(g.target, ev, work, func, g)
       for cond in g.ifs:
         cvv = self.eval(cond, work, func)
@@ -1574,6 +1617,16 @@ class Engine:
       return V(self.dom.fstring(args, e, st), ty='str')
     if name == 'copy' and recv.kv is not None:
       return recv.with_()
+    if name == 'get' and recv.kv and recv.ty == 'dict' and \
+            1 <= len(args) <= 2 and not kwargs:
+      k = args[0].const()
+      dflt = args[1] if len(args) > 1 else self._constv(None)
+      if isinstance(k, str):
+        return recv.kv.get(k, dflt)
+      r = dflt
+      for x in recv.kv.values():
+        r = self.join_v(r, x)
+      return r
     self.dom.on_call('method', (recv, name), args, kwargs, e, st)
     r = self._wrap(self.dom.method_call(recv, name, args, kwargs, e, st,
                                         self))
@@ -1593,6 +1646,26 @@ class Engine:
       self.dom.on_call('unknown', callee, args, kwargs, e, st)
       return self._wrap(self.dom.value_call(callee, args, kwargs, e, st))
     kind = fn[0]
+    if kind == 'multi':
+      # any of finitely many known callables: each is analysed from a copy of
+      # the state; results and states are joined
+      res, outs = None, []
+      for alt in fn[1]:
+        s2 = st.copy()
+        s2.aux = self.dom.aux_copy(s2.aux)
+        r = self.call_value(callee.with_(fn=alt), list(args), dict(kwargs),
+                            e, s2, func)
+        if self._dead:
+          self._dead = False
+          continue
+        res = r if res is None else self.join_v(res, r)
+        outs.append(s2)
+      if not outs:
+        self._dead = True
+        return V(self.dom.top(e))
+      j = self.join_states(outs)
+      st.vars, st.aux = j.vars, j.aux
+      return res
     if kind == 'repo':
       self.calls_resolved += 1
       target = fn[1]
